@@ -710,7 +710,7 @@ class SubBorrowIn(Logic):
         
 
     def propagate(self):
-        self.r.put(self.a.get() - self.b.get() - self.ci.get())   
+        self.r.put(self.a.get() - self.b.get() - self.bi.get())   
 
 
 class Counter(Logic):
